@@ -24,8 +24,11 @@ RULES = {
     "R5": "NameFixPass: scope stacks are pushed and popped together; every rename takes its name from "
     "_find_and_record_next_unique_name, whose loop exits only on non-membership and which records the result"
     " ; the call that fixes a graph-like is never a short-circuited operand (every function is visited)",
+    "R6": "a rename re-keys (shared with C01-R3): NameFixPass renames through the Value.name setter; in that setter every path "
+    "from the store of the new name to the exit passes the test that re-keys the graph's initializer table, so initializers are "
+    "keyed by their current names after name fixing - with or without a backing tensor",
 }
-FLOORS = {"R1": 6, "R2": 6, "R3": 5, "R4": 1, "R5": 8}
+FLOORS = {"R1": 6, "R2": 6, "R3": 5, "R4": 1, "R5": 8, "R6": 1}
 EXPLANATION = (
     "Who-may-write and growth-only checks on the name registries, CFG shape of the name generators, reachability of "
     "the registration routine from every node-linking method, reuse of the C06 write-before-reject analysis for bulk "
@@ -266,6 +269,9 @@ def rule_r5b(ctx):
 
 
 def run(ctx):
+    from . import c01
+
+    c01.rule_rekey(ctx, rule="R6", consequence="; after NameFixPass `graph.initializers[old]` holds a value whose name is the new one")
     rule_r5b(ctx)
     rule_r1(ctx)
     rule_r2(ctx)
